@@ -181,3 +181,114 @@ sorted_check = REG.add(Contract(
     loops={1: Loop(lambda S, a: [("no overlap among the pairs checked so far",
                                   S.forall(0, a.k_, lambda i: S.Not(_overlap_at(S, a.subruns, i))))])},
 ))
+
+
+# --------------------------------------------------------------------------------------
+# _merge_subruns_in_chunk / _merge_superrun_in_chunk: every chunk's annotation enters the merge
+# --------------------------------------------------------------------------------------
+def _merge_runs_hook(which):
+    def h(eng, args, kw, st, fr, k, node):
+        """_merge_runs_in_chunk(c.<which>, acc): records which annotation was merged into which accumulator"""
+        g = dict(st.ghost)
+        g["merged_arg"] = eng.to_v(args[0])
+        g["n_merged"] = g["n_merged"] + 1
+        env = dict(st.env)
+        env[which] = Opq(eng.fresh(which + "_acc", "V"))      # the accumulator dict is updated in place by the callee
+        return k(PNONE, St(env, st.heap, st.pc, g))
+    return h
+
+
+def _merge_contract(qualname, which):
+    return REG.add(Contract(
+        F, qualname,
+        params=dict(chunks="V", merge="bool"),
+        ensures=lambda S, a, r: [("every chunk of the list contributed its annotation", a.ghost.n_merged == S.iter_len(a.chunks))],
+        raises={"ValueError": lambda S, a: S.true},
+        ghost={"merged_arg": z3.Const("nothing_merged_yet", V), "n_merged": z3.IntVal(0)},
+        calls={"_merge_runs_in_chunk": _merge_runs_hook(which), "_mergable_check": Abstract(sort=None, may_raise=["ValueError"])},
+        loops={1: Loop(lambda S, a: [("one merge per chunk seen so far", a.ghost.n_merged == a.k_)],
+                       body_ensures=lambda S, a: [
+                           ("the annotation of EVERY chunk (also one without rows) is merged",
+                            S.eq(a.ghost.merged_arg, S.attr(a.c, which)))])},
+        local_sorts={which: "V"},
+    ))
+
+
+merge_subruns = _merge_contract("_merge_subruns_in_chunk", "subruns")
+merge_superrun = _merge_contract("_merge_superrun_in_chunk", "superrun")
+
+
+# --------------------------------------------------------------------------------------
+# Plugin.superrun_transformation: which annotation the result of a compute call gets
+# --------------------------------------------------------------------------------------
+def _upd(which):
+    def h(eng, args, kw, st, fr, k, node):
+        g = dict(st.ghost)
+        g[which + "_of"] = eng.to_v(args[-2])
+        g[which + "_to"] = eng.to_v(args[-1])
+        g[which + "_set"] = z3.BoolVal(True)
+        return k(PNONE, St(st.env, st.heap, st.pc, g))
+    return h
+
+
+def _srt_ens(S, a, r):
+    g = a.ghost
+    combining_level = S.And(S.truthy(S.attr(a.self, "is_superrun")), S.Not(S.contains(a.superrun, S.attr(a.self, "_run_id"))))
+    return [
+        ("a superrun plugin fed with chunks of ordinary subruns records those subruns (the inputs' run spans) as the result's subruns",
+         S.Implies(combining_level, S.And(g.subruns_set, S.eq(g.subruns_to, a.superrun), S.eq(g.subruns_of, a.result), S.Not(g.superrun_set)))),
+        ("otherwise the inputs' subruns and superrun annotations are inherited unchanged",
+         S.Implies(S.Not(combining_level), S.And(g.subruns_set, S.eq(g.subruns_to, a.subruns), g.superrun_set, S.eq(g.superrun_to, a.superrun),
+                                                S.eq(g.subruns_of, a.result), S.eq(g.superrun_of, a.result)))),
+        ("the result itself is handed back", S.eq(r, a.result))]
+
+
+_NOTHING = z3.Const("nothing_set", V)
+superrun_transformation = REG.add(Contract(
+    "strax/plugins/plugin.py", "Plugin.superrun_transformation",
+    params=dict(self="V", result="V", superrun="V", subruns="V"),
+    ensures=_srt_ens, raises={"ValueError": lambda S, a: S.true},
+    ghost={"subruns_of": _NOTHING, "subruns_to": _NOTHING, "subruns_set": z3.BoolVal(False),
+           "superrun_of": _NOTHING, "superrun_to": _NOTHING, "superrun_set": z3.BoolVal(False)},
+    calls={"self._update_subruns": _upd("subruns"), "self._update_superrun": _upd("superrun")},
+))
+
+
+# --------------------------------------------------------------------------------------
+# define_run: the subruns are ordered by their start times
+# --------------------------------------------------------------------------------------
+def _argsort_hook(eng, args, kw, st, fr, k, node):
+    eng.oblige("order", "the subruns of a superrun are ordered by their START times (stable_argsort of the collected starts)", st,
+               eng.equal(args[0], st.env["starts"]) if "starts" in st.env else z3.BoolVal(False), node)
+    g = dict(st.ghost)
+    g["sorted_by_start"] = z3.BoolVal(True)
+    return k(Opq(eng.fresh("sort_index", "V")), St(st.env, st.heap, st.pc, g))
+
+
+def _sf_define_run(eng, args, kw, st, fr, k, node):
+    """sf.define_run(name, sub_run_spec=data, **run_md): what is written is the re-ordered spec"""
+    eng.oblige("order", "the run definition that is stored was put in start order first", st, st.ghost["sorted_by_start"], node)
+    g = dict(st.ghost)
+    g["defined"] = z3.BoolVal(True)
+    return k(PNONE, St(st.env, st.heap, st.pc, g))
+
+
+define_run = REG.add(Contract(
+    "strax/run_selection.py", "define_run",
+    params=dict(self="V", name="V", data="V", from_run="V"),
+    requires=lambda S, a: [("a dict {run id: 'all' | time ranges} (lists of run ids are turned into one by the recursive call)",
+                            S.And(S.Not(S.is_instance(a.data, "pd.DataFrame+np.ndarray")), S.Not(S.is_instance(a.data, "list+tuple")),
+                                  S.is_instance(a.data, "dict")))],
+    ensures=lambda S, a, r: [("the superrun was stored with its subruns in start order", S.And(a.ghost.defined, a.ghost.sorted_by_start))],
+    raises={"RuntimeError": lambda S, a: S.true},
+    ghost={"sorted_by_start": z3.BoolVal(False), "defined": z3.BoolVal(False)},
+    calls={"stable_argsort": _argsort_hook, "sf.define_run": _sf_define_run, "self.define_run": Abstract(),
+           "self.run_metadata": Abstract(), "warnings.warn": Abstract(sort=None), "strax.to_str_tuple": Abstract(pure=True),
+           "datetime.datetime.max.replace": Abstract(), "datetime.datetime.min.replace": Abstract(),
+           ".setdefault": Abstract(sort=None), ".replace": Abstract(), ".total_seconds": Abstract(sort="int"),
+           "min": Abstract(pure=True), "max": Abstract(pure=True)},
+    store_hooks={"run_md": lambda eng, st, key, value, node: st},
+    loops={1: Loop(lambda S, a: []), 2: Loop(lambda S, a: [])},
+    loop_ghost={1: [], 2: ["defined"]},
+    local_sorts={"keys": "V", "starts": "V", "run_md": "V", "tags": "V", "modes": "V", "sources": "V", "comments": "V"},
+))
